@@ -110,6 +110,11 @@ structure Ledger where
   neVals : List Nat := []
   /-- Policy's blocked accounts (policy.go:668-721) -/
   blocked : List Nat := []
+  /-- the latest P2PNotary designation of the RoleManagement contract (designate.go: DesignationCache): the node
+  accounts in key order, and the block index from which it is recorded (`index + 1` of the designating block;
+  0 = none yet).  Notary.GetNotaryNodes (notary.go:425-428) asks for index MaxUint32, i.e. always the latest. -/
+  notaryNodes : List Nat := []
+  notaryHeight : Nat := 0
   /-- ghost: sum of the amounts of all GAS `Transfer` notifications with `from` = null emitted since genesis by
   executions that were not rolled back, and of those with `to` = null -/
   gasMinted : Int := 0
@@ -181,6 +186,8 @@ structure Env where
   /-- accounts of the GAS and Policy contracts -/
   gasC : Nat := 0
   policyC : Nat := 0
+  /-- account of the RoleManagement contract -/
+  desigC : Nat := 0
   /-- the majority multi-signature accounts the case can build: account ↦ its public keys sorted with
   PublicKey.Cmp (smartcontract.CreateMajorityMultiSigRedeemScript, native_neo.go:426-431) -/
   msig : List (Nat × List Nat) := []
@@ -839,6 +846,20 @@ def tokC (e : Env) : Tok → Nat
   | .neo => e.neoC
   | .gas => e.gasC
 
+/-! ## RoleManagement.designateAsRole(P2PNotary, nodes) -/
+
+/-- DesignateAsRole (designate.go:409-470) for the P2PNotary role; `none` = panic.  The checks in the code's order:
+empty list, more than 32 nodes, committee witness, a designation for `index + 1` exists already (a second one in
+the same block), duplicates; the keys are stored sorted (the harness numbers the notary nodes' accounts in key
+order, so sorting the account numbers is sorting the keys). -/
+def designateNotary (e : Env) (l : Ledger) (nodes : List Nat) (wit : Bool) : Option Ledger :=
+  if nodes.isEmpty then none
+  else if nodes.length > 32 then none
+  else if !wit then none
+  else if l.notaryHeight = e.index + 1 then none
+  else if nodes.eraseDups.length ≠ nodes.length then none
+  else some { l with notaryNodes := sortBy (fun a b => decide (a ≤ b)) nodes, notaryHeight := e.index + 1 }
+
 /-! ## Policy.blockAccount / unblockAccount -/
 
 /-- BlockAccountInternalDeferrable (policy.go:668-711) after the committee check, for a plain account or a contract
@@ -909,6 +930,7 @@ inductive Op
   | setRegPrice (price : Int) (caller : Option Nat)
   | blockAcc (acc : Nat) (caller : Option Nat)
   | unblockAcc (acc : Nat) (caller : Option Nat)
+  | designate (nodes : List Nat) (caller : Option Nat)
   | endCb
   | txEnd (abort : Bool)
   | postPersist
@@ -1104,6 +1126,12 @@ def exec (s : St) (op : Op) : St :=
     else
       let (l, b) := unblockAccount s.cur acc
       s.done l (resOf b)
+  | .designate nodes caller =>
+    if s.failing then s
+    else
+      match designateNotary s.env s.cur nodes (witCommittee s.env s.cur caller s.env.desigC) with
+      | none => s.throw
+      | some l => s.done l .null
 
 /-- a call made by a script (as opposed to the block-level operations). -/
 def Op.isCall : Op → Bool
@@ -1113,7 +1141,7 @@ def Op.isCall : Op → Bool
 /-- the contract that makes the call (`none`: the entry script, or not a call). -/
 def Op.caller : Op → Option Nat
   | .transfer _ _ _ _ c _ _ | .vote _ _ c | .register _ c | .unregister _ c | .lock _ _ c | .withdraw _ _ c
-  | .setGpb _ c | .setRegPrice _ c | .blockAcc _ c | .unblockAcc _ c => c
+  | .setGpb _ c | .setRegPrice _ c | .blockAcc _ c | .unblockAcc _ c | .designate _ c => c
   | _ => none
 
 /-- a call the entry script makes through a contract that Policy has blocked: System.Contract.Call refuses to enter
